@@ -70,6 +70,7 @@ fn subsets() -> Vec<FamParams> {
             n_inst: 1 + (m % 2) as u8,
             rows: 1 + (m % 3) as u8,
             fx_tweak: 0,
+            rot_first: m % 5 == 2,
         });
     }
     v
